@@ -59,15 +59,21 @@ pub fn exec(op: &str, a: &Value) -> Option<Value> {
                 (Now::plain_datetime_iso_with_provider_and_system_info(e, tz.clone(), &p)?, Now::plain_date_iso_with_provider_and_system_info(e, tz.clone(), &p)?, Now::plain_time_iso_with_provider_and_system_info(e, tz.clone(), &p)?)
             } else { (x.to_plain_datetime_with_provider(&p)?, x.to_plain_date_with_provider(&p)?, x.to_plain_time_with_provider(&p)?) };
             let off = x.offset_nanoseconds_with_provider(&p)?;
-            Ok((x.epoch_nanoseconds().as_i128(), dt, d, t, off))
-        }, |(ns, dt, d, t, off)| {
+            let me = x.epoch_nanoseconds().as_i128();
+            let ord = |o: std::cmp::Ordering| o as i8 as i64;
+            // the neighbours live in another zone (+03:00): only the instants are compared
+            let other = |d: i128| ZonedDateTime::try_new(me + d, iso(), TimeZone::UtcOffset(UtcOffset::from_str("+03:00")?));
+            let cmp = [ord(x.compare_instant(&other(-1_000_000_000)?)), ord(x.compare_instant(&x.clone())), ord(x.compare_instant(&other(1_000_000_000)?))];
+            Ok((me, dt, d, t, off, x.to_instant().epoch_nanoseconds().as_i128(), cmp))
+        }, |(ns, dt, d, t, off, ti, cmp)| {
             let day = crate::gen::days_from_civil(dt.iso_year() as i64, dt.iso_month() as i64, dt.iso_day() as i64);
             let w = day * 86_400 + (dt.hour() as i64 * 60 + dt.minute() as i64) * 60 + dt.second() as i64 - BASE_SEC;
             let sub = (dt.millisecond() as i64 * 1000 + dt.microsecond() as i64) * 1000 + dt.nanosecond() as i64;
             let tsub = (t.millisecond() as i64 * 1000 + t.microsecond() as i64) * 1000 + t.nanosecond() as i64;
             if sub != SUB_NS || tsub != SUB_NS { return json!({"bad_subsecond": [sub, tsub]}); }
             let dday = crate::gen::days_from_civil(d.iso_year() as i64, d.iso_month() as i64, d.iso_day() as i64) - BASE_SEC / 86_400;
-            json!({"t": rel_of(*ns), "w": int(w), "day": int(dday), "sod": int((t.hour() as i64 * 60 + t.minute() as i64) * 60 + t.second() as i64), "off": int(*off as i64 / 1_000_000_000)})
+            json!({"t": rel_of(*ns), "w": int(w), "day": int(dday), "sod": int((t.hour() as i64 * 60 + t.minute() as i64) * 60 + t.second() as i64), "off": int(*off as i64 / 1_000_000_000),
+                   "ti": rel_of(*ti), "cmp": [int(cmp[0]), int(cmp[1]), int(cmp[2])]})
         }),
         "Zoned.fromStr" => run(|| {
             let f = fields_of(js::i(a, "w"), SUB_NS);
